@@ -33,7 +33,8 @@ CONSTANTS RandomCalls,   \* TRUE: one random call per Invoke (simulation); FALSE
           EmitBadOnly,   \* print only schedules at whose end the model of the code has NOT converged
           MaxFailPolls,  \* polls of a drain wait that find the wait NOT over (the code sleeps 200 ms and polls again)
           MaxFailClaims, \* passes of a worker that find the oldest entry held by another claim owner
-          PairMode       \* BFS: "all" pairs of calls | "write-read": a queued write against every read
+          PairMode       \* BFS: "all" pairs of calls | "write-read" / "write-sync": a queued write against every read /
+                         \* every write-through call
 
 VARIABLES sched, phase, pfx, prg, npoll,
           nfc,      \* [n |-> failed claims so far, skip |-> one of them happened with a younger entry queued]
@@ -45,9 +46,15 @@ P1 == CHOOSE c \in Clients : \A d \in Clients : c = "c1" \/ d # "c1"
 PB == CHOOSE b \in Buckets : \A d \in Buckets : b = "b1" \/ d # "b1"
 PK == CHOOSE k \in Keys : \A d \in Keys : k = "k1" \/ d # "k1"
 PBl == CHOOSE x \in Blobs : \A y \in Blobs : x = "c1" \/ y # "c1"
+PBl2 == CHOOSE x \in Blobs : \A y \in Blobs : x = "c2" \/ y # "c2"
 PrefixCalls == CASE Prefix = "bucket" -> <<MkCall("CreateBucket", PB, "", "", "none", "none", "", "")>>
                  [] Prefix = "object" -> <<MkCall("CreateBucket", PB, "", "", "none", "none", "", ""),
                                            MkCall("PutObject", PB, PK, PBl, "none", "none", "", "")>>
+                 \* bucket, object, and a pending multipart upload of the same key with one part
+                 [] Prefix = "upload" -> <<MkCall("CreateBucket", PB, "", "", "none", "none", "", ""),
+                                           MkCall("PutObject", PB, PK, PBl, "none", "none", "", ""),
+                                           MkCall("CreateUpload", PB, PK, "", "none", "none", "", ""),
+                                           MkCallU("UploadPart", PB, PK, PBl2, "none", "", 1)>>
                  [] OTHER -> <<>>
 
 Rec(p, a, call) == sched' = Append(sched, [p |-> p, a |-> a, call |-> call])
@@ -65,6 +72,9 @@ Sensible(c, call) ==
 OnPK(call) == call.b \in {PB, ""} /\ call.k \in {"", PK}
 PairSet == IF PairMode = "write-read"
            THEN {<<a, b>> : a \in {x \in Calls : OnPK(x) /\ Routed(x)}, b \in {x \in Calls : OnPK(x) /\ IsRead(x)}}
+           ELSE IF PairMode = "write-sync"   \* a queued write against every write-through call
+           THEN {<<a, b>> : a \in {x \in Calls : OnPK(x) /\ Routed(x)},
+                            b \in {x \in Calls : OnPK(x) /\ IsWrite(x) /\ ~Routed(x) /\ ~AlwaysQueued(x)}}
            ELSE {<<a, b>> : a \in {x \in Calls : OnPK(x)}, b \in {x \in Calls : OnPK(x)}}
 Pairs == SetToSeq(PairSet)
 P2 == CHOOSE c \in Clients \ {P1} : \A d \in Clients \ {P1} : c = "c2" \/ d # "c2"
